@@ -2059,6 +2059,11 @@ func (self *Aof) loadRewriteAofFiles(aofFilenames []string) (*AofFile, []*AofFil
 		lockCommand.Expried = self.GetLockCommandExpriedTime(db, aofLock)
 		lockCommand.Count = aofLock.Count
 		lockCommand.Rcount = aofLock.Rcount
+		if aofLock.AofFlag&AOF_FLAG_RCOUNT_IS_PRIORITY != 0 {
+			lockCommand.TimeoutFlag = protocol.TIMEOUT_FLAG_RCOUNT_IS_PRIORITY
+		} else {
+			lockCommand.TimeoutFlag = 0
+		}
 		if !db.HasLock(lockCommand, aofLock.data) {
 			return true, nil
 		}
